@@ -829,7 +829,8 @@ static void raceConn(int scn, int ci, unsigned nconn, int port, const RaceCfg &c
     lastProgress = vf::nowNs();
     bool firstByteTimed = respASeen;
     const size_t sent = ch.reqs.size();
-    bool stalled = false;
+    bool stalled = false, suspect = false;
+    uint64_t progAtSuspect = 0, kickAfterNs = 0;
     for (;;)
     {
       pc.update(ch.rx);
@@ -841,16 +842,33 @@ static void raceConn(int scn, int ci, unsigned nconn, int port, const RaceCfg &c
         uint64_t d = ch.tLastByte > tB ? ch.tLastByte - tB : 0;
         if (d < 100000) near100++;
       }
-      if (vf::nowNs() - lastProgress > uint64_t(cfg.stallMs) * 1000000ull) { stalled = true; break; }
+      uint64_t silentNs = vf::nowNs() - lastProgress;
+      if (!suspect && silentNs > uint64_t(cfg.stallMs) * 1000000ull)
+      {
+        // phase 1: suspect. Nothing is written yet: a request that is merely slow (worker or
+        // vCPU descheduled) gets twice the stall bound more to be answered on its own.
+        suspect = true;
+        progAtSuspect = gProgress.load();
+        kickAfterNs = uint64_t(cfg.stallMs) * 3000000ull + rng.below(uint64_t(cfg.stallMs) * 1000000ull); // seeded, not a fixed instant
+        O.obs("race_stall_suspects");
+      }
+      if (suspect && silentNs > kickAfterNs) { stalled = true; break; }
     }
     if (ended) break;
+    if (suspect && !stalled)
+    {
+      O.obs("race_stall_suspects_answered_without_kick"); // slowness
+      O.obsMax("race_longest_silence_answered_without_kick_ms", (vf::nowNs() - tB) / 1000000);
+    }
     if (stalled)
     {
-      // suspect: probe with one more request on the same connection
-      O.obs("race_stall_suspects");
-      uint64_t others = gProgress.load() - progAtB;
+      // phase 2: still silent after 3 x stallMs: probe with one more request on the same connection
+      O.obs("race_stall_kicks");
+      uint64_t others = gProgress.load() - progAtB, othersLate = gProgress.load() - progAtSuspect;
       unsigned answeredBefore = pc.count;
+      HEntry hf = answeredBefore < ch.reqs.size() ? gLog.get(ch.reqs[answeredBefore].token) : HEntry{};
       size_t kickIdx = ch.reqs.size();
+      uint64_t tKick = vf::nowNs();
       sendReq(raceReq(std::string(tb) + "k", 0, 32));
       lastProgress = vf::nowNs();
       bool all = false;
@@ -862,10 +880,13 @@ static void raceConn(int scn, int ci, unsigned nconn, int port, const RaceCfg &c
         if (vf::nowNs() - lastProgress > uint64_t(cfg.silenceMs) * 1000000ull) break;
       }
       if (ch.stop == "?") ch.stop = all ? "settled" : "silence";
-      char ex[320];
-      snprintf(ex, sizeof ex, ",\"stall\":{\"first_unanswered\":%u,\"kick\":%zu,\"stall_ms\":%u,\"others_progress\":%" PRIu64
+      char ex[640];
+      snprintf(ex, sizeof ex, ",\"stall\":{\"first_unanswered\":%u,\"kick\":%zu,\"stall_ms\":%u,\"silent_ms_before_kick\":%u"
+               ",\"others_progress\":%" PRIu64 ",\"others_progress_last_two_thirds\":%" PRIu64
+               ",\"t_kick_ns\":%" PRIu64 ",\"first_unanswered_h_enter_at_kick\":%" PRIu64 ",\"first_unanswered_h_exit_at_kick\":%" PRIu64
                ",\"all_answered_after_kick\":%d,\"delay_class\":%u,\"delay_us\":%" PRIu64 ",\"round\":%u}",
-               answeredBefore, kickIdx, cfg.stallMs, others, all ? 1 : 0, c, delayUs, r);
+               answeredBefore, kickIdx, cfg.stallMs, unsigned(kickAfterNs / 1000000), others, othersLate, tKick, hf.enter, hf.exit,
+               all ? 1 : 0, c, delayUs, r);
       bool goOn = all && ++stalls < 3;
       finishChunk(true, ex);
       if (!goOn) { ended = true; break; }
